@@ -3,6 +3,7 @@ package main
 // Persistent SMT solver processes (cvc5 --incremental / z3 -in) driven over pipes.
 
 import (
+	"os"
 	"bufio"
 	"fmt"
 	"io"
@@ -32,6 +33,12 @@ type SolverStats struct {
 }
 
 var gStats = map[string]*SolverStats{"cvc5": {}, "z3": {}, "z3-new": {}}
+
+func init() {
+	if f := os.Getenv("VERIF_SMTLOG"); f != "" {
+		smtLog, _ = os.Create(f)
+	}
+}
 
 func startSolver(kind string, timeoutMs int) (*Solver, error) {
 	var cmd *exec.Cmd
@@ -65,9 +72,14 @@ func startSolver(kind string, timeoutMs int) (*Solver, error) {
 	return s, nil
 }
 
+var smtLog *os.File
+
 func (s *Solver) send(line string) {
 	if s.dead {
 		return
+	}
+	if smtLog != nil {
+		smtLog.WriteString(line + "\n")
 	}
 	if _, err := io.WriteString(s.in, line+"\n"); err != nil {
 		s.dead = true
